@@ -5,6 +5,7 @@ import (
 	"fmt"
 	"runtime"
 	"strings"
+	"time"
 
 	icl "github.com/moov-io/imagecashletter"
 )
@@ -24,9 +25,17 @@ func runC03(cfg *config) *Report {
 	var cases []kase
 	var lines []string
 	for i := 0; i < n; i++ {
-		f, err := genFile(r, genOpts{maxCL: 3, maxBundles: 3, maxItems: 3, mutateP: 70, binary: i%4 == 3})
+		f, err := genFile(r, genOpts{maxCL: 3, maxBundles: 3, maxItems: 3, mutateP: 70, binary: i%4 == 3, unbuilt: i%4 == 1})
 		if err != nil {
 			continue
+		}
+		if i%3 == 1 {
+			// conditional dates left blank (the build step always fills the settlement date in)
+			for ci := range f.CashLetters {
+				if c := f.CashLetters[ci].CashLetterControl; c != nil {
+					c.SettlementDate = time.Time{}
+				}
+			}
 		}
 		d := dumpFile(f)
 		encs := allEnc
@@ -108,6 +117,7 @@ func runC03(cfg *config) *Report {
 		cur := rs.f
 		var prev []byte
 		for cyc := 0; cyc < 3; cyc++ {
+			before := exportedOnly(dumpFile(&cur)) // writing is an observation: compared with the file as it was BEFORE the write
 			w, werr, p := realWrite(&cur, c.enc)
 			if p != nil || werr != nil {
 				rep.violate(Violation{Key: "C03:cycle-write:" + c.enc.String(), What: fmt.Sprint("writing the file that was just read failed: ", werr, p),
@@ -126,7 +136,7 @@ func runC03(cfg *config) *Report {
 					Replay: map[string]any{"bytes": hx(w), "enc": c.enc.String(), "cycle": cyc}})
 				break
 			}
-			if exportedOnly(dumpFile(&nf)) != exportedOnly(dumpFile(&cur)) {
+			if exportedOnly(dumpFile(&nf)) != before {
 				rep.violate(Violation{Key: "C03:cycle-differs:" + c.enc.String(), What: "write then read gave a different file",
 					Replay: map[string]any{"bytes": hx(w), "enc": c.enc.String(), "cycle": cyc}})
 				break
